@@ -146,10 +146,21 @@ func enumeration() []*scenario {
 func runBatch(t *testing.T, name string, scs []*scenario) {
 	failed := map[string]*scenario{}
 	msgs := map[string]string{}
-	for _, sc := range scs {
+	failing := 0
+	shard, shards := evid.Shard()
+	for i, sc := range scs {
+		if i%shards != shard { // an enumeration is split over the shards of a run, not repeated by each
+			continue
+		}
+		if failing >= 3 { // a red run reports its first failures and stops; later scenarios are not counted
+			break
+		}
 		serial.Lock()
 		res := runScenario(sc, requesterFor(sc.Mode))
 		serial.Unlock()
+		if len(res.failures) > 0 {
+			failing++
+		}
 		evid.Eval(1)
 		classify(sc, res)
 		for _, f := range res.failures {
@@ -261,7 +272,10 @@ func TestEndToEnd(t *testing.T) {
 	runBatch(t, "end-to-end", scs)
 }
 
-// TestReplayFile re-runs one saved scenario.
+// TestReplayFile re-runs one saved case (a scenario, a sequential-requests case
+// or a simultaneous-requests case, told apart by the check name) without rapid.
+// Generated RTP programmes are not part of the rendering; the replay uses the
+// deterministic programme (rapid's own .fail file replays the exact one).
 func TestReplayFile(t *testing.T) {
 	p := os.Getenv("VERIF_REPLAY_FILE")
 	if p == "" {
@@ -272,18 +286,50 @@ func TestReplayFile(t *testing.T) {
 		t.Fatal(err)
 	}
 	var doc struct {
-		Case scenario `json:"case"`
+		Check string          `json:"check"`
+		Case  json.RawMessage `json:"case"`
 	}
 	if err := json.Unmarshal(b, &doc); err != nil {
 		t.Fatal(err)
 	}
-	sc := doc.Case
+	var failures []fail
 	serial.Lock()
-	res := runScenario(&sc, requesterFor(sc.Mode))
+	switch {
+	case strings.HasPrefix(doc.Check, "concurrent/"):
+		var cc concurrentCase
+		if err := json.Unmarshal(doc.Case, &cc); err != nil {
+			t.Fatal(err)
+		}
+		failures = concurrent(&cc).failures
+	case strings.HasPrefix(doc.Check, "sequential/"):
+		var sc scenario
+		if err := json.Unmarshal(doc.Case, &sc); err != nil {
+			t.Fatal(err)
+		}
+		failures = sequential(&sc, 3).failures
+	default:
+		var sc scenario
+		if err := json.Unmarshal(doc.Case, &sc); err != nil {
+			t.Fatal(err)
+		}
+		failures = runScenario(&sc, requesterFor(sc.Mode)).failures
+	}
 	serial.Unlock()
-	for _, f := range res.failures {
+	for _, f := range failures {
 		t.Errorf("%s: %s", f.check, f.msg)
 	}
+}
+
+// TestHLSPlaylistRequest: the third kind of requester on a healthy camera. A
+// playlist request for a stream that has just been pulled waits until three
+// segments exist, so the camera's programme has half-second frames and the
+// requester keeps it sending while it waits.
+func TestHLSPlaylistRequest(t *testing.T) {
+	sc := &scenario{Name: "HLS playlist request, healthy camera", Audio: true, Creds: "right", User: "admin", Pass: "pw", Initial: 2,
+		Consumers: 1, Live: 4, End: int(fakecam.AfterEOF), Mode: "hls", FollowUp: true}
+	sc.Steps[fakecam.Describe] = fakecam.Behaviour{Kind: fakecam.Digest401, N: 1}
+	sc.frames = fakecam.SimpleFramesStep(3000, true, 45000)
+	runBatch(t, "hls-request", []*scenario{sc})
 }
 
 // TestSequentialRequests: when a request has succeeded the stream is under the
@@ -420,7 +466,7 @@ func genScenario(t *rapid.T) *scenario {
 // handshake and the play phase, with generated credentials, routes and
 // programmes, through all request modes.
 func TestMultiFault(t *testing.T) {
-	evid.Checks(110, 2500)
+	evid.Checks(110, 1500)
 	rapid.Check(t, func(t *rapid.T) {
 		sc := genScenario(t)
 		serial.Lock()
@@ -448,7 +494,7 @@ func TestMultiFault(t *testing.T) {
 // that lost the registration and have no consumer are closed and their camera
 // connection released; in the end nothing is left behind.
 func TestConcurrentFirstRequests(t *testing.T) {
-	evid.Checks(30, 600)
+	evid.Checks(30, 300)
 	rapid.Check(t, func(t *rapid.T) {
 		cc := &concurrentCase{Injected: rapid.IntRange(0, 3).Draw(t, "injected") != 0, Digest: rapid.Bool().Draw(t, "digest"), Audio: rapid.Bool().Draw(t, "audio")}
 		n := rapid.IntRange(2, 4).Draw(t, "requesters")
